@@ -2,6 +2,7 @@
 import random, os, json, itertools, multiprocessing as mp
 from fractions import Fraction as F
 from ..common import Result, OUT, scratch, run_tlc, Machinery, tlc_error_excerpt, rat, quiet, scores_json, groups, _tiebreaks_json
+from ..common import fork_pool
 from .. import domains as D
 from ..calltrace import judge_calls
 
@@ -246,7 +247,7 @@ def run(tier, seed, replay=None):
             res.violation("spec:MC_Rating:%s" % r["violated"], "the rating definitions violate %s" % r["violated"], {})
         inputs = corpus(tier, seed)
     res.evaluations = len(inputs)
-    with mp.get_context("fork").Pool(16) as pool:
+    with fork_pool(16) as pool:
         traces = [t for ts in pool.imap_unordered(work, inputs, chunksize=16) for t in ts]
     traces.sort(key=lambda t: json.dumps({k: v for k, v in t.items() if not k.startswith("_")}, sort_keys=True))
     for t in traces:
